@@ -171,6 +171,20 @@ static void CloseTarget(void) {
     }
 }
 
+/* number of byte addresses below ByteAddr that the byte mode (-m) selects;
+   all modes repeat every four bytes */
+
+static LongWord SelectedBelow(LongWord ByteAddr) {
+    LongWord Result = (ByteAddr / 4) * (4 / SizeDiv), Addr;
+
+    for (Addr = ByteAddr & ~((LongWord)3); Addr < ByteAddr; Addr++) {
+        if ((Addr & ANDMask) == ANDEq) {
+            Result++;
+        }
+    }
+    return Result;
+}
+
 static void ProcessFile(char const* FileName, LongWord Offset) {
     FILE*    SrcFile;
     Word     TestID;
@@ -256,7 +270,8 @@ static void ProcessFile(char const* FileName, LongWord Offset) {
                 /* in Zieldatei an passende Stelle */
 
                 if (fseek(TargFile,
-                          (((ErgStart - StartAdr) * Gran) / SizeDiv) + abs(StartHeader),
+                          SelectedBelow(ErgStart * Gran) - SelectedBelow(StartAdr * Gran)
+                                  + abs(StartHeader),
                           SEEK_SET)
                     == -1) {
                     ChkIO(TargName);
